@@ -92,7 +92,7 @@ def run_write_session(fs: SimFS, sess: dict, kind: str = "path", bufsize: int = 
             z.set_encrypted_header(True)
         first = True
         for i, op in enumerate(sess["ops"]):
-            data = content_bytes(op)
+            data = content_bytes(op) if "content" in op else None
             try:
                 if op["op"] == "writestr":
                     raw = gen.materialize(op["content"])
@@ -214,7 +214,17 @@ def _absorb_dealloc_noise(collect=True):
     attaches to an unrelated call (SystemError '... returned a result with an exception set').  Provoke and swallow
     it here, at a known place, so it cannot surface inside the harness."""
     import gc
+    import sys
 
+    hook = sys.unraisablehook
+    sys.unraisablehook = lambda *a: None
+    try:
+        _absorb(collect, gc)
+    finally:
+        sys.unraisablehook = hook
+
+
+def _absorb(collect, gc):
     for _ in range(3):
         try:
             if collect:
